@@ -367,3 +367,28 @@ def postProcess (sets : List (List String)) (raw : PTree) : List PTree :=
   missingAnd 50 sets (filterDefunct 200 (inferOrAll sets 50 raw))
 
 end O2P.Gate
+
+namespace O2P.Gate
+
+mutual
+/-- a processed tree as a gate tree of the judge (a remaining `tau` leaf counts as an event named "tau"; a node of
+another operator is not a gate) -/
+def PTree.toGate : PTree → Option Gate
+  | .leaf a => some (.leaf a)
+  | .tau => some (.leaf "tau")
+  | .node .and cs => (PTree.toGateL cs).map (.node .and)
+  | .node .or cs => (PTree.toGateL cs).map (.node .or)
+  | .node .xor cs => (PTree.toGateL cs).map (.node .xor)
+  | .node .other _ => none
+def PTree.toGateL : List PTree → Option (List Gate)
+  | [] => some []
+  | c :: cs => match c.toGate, PTree.toGateL cs with
+    | some g, some gs => some (g :: gs)
+    | _, _ => none
+end
+
+/-- the miner's rendering of "all of `N`, any of `R`" over plain events -/
+def rawLeaves (N R : List String) : PTree :=
+  .node .and (N.map PTree.leaf ++ R.map fun r => PTree.node .xor [.tau, .leaf r])
+
+end O2P.Gate
